@@ -4,15 +4,15 @@ import importlib
 import os
 import sys
 
-TRANSLATORS = [
-    # one line per translator module
-    "translate_math",     # C01/C04: gen/MathTables.v (supportedMathMLElements)
-    "translate_rules",    # C15: gen/RuleTable.v, gen/IssueSites.v
-    "translate_units",    # C08: gen/UnitTables.v, gen/PrefixTable.v
-    "translate_profile",  # C03/C17: gen/AstTypes.v, gen/ProfileStrings.v
-    "translate_iface",    # C19: gen/IfaceTable.v (interfaceTypeToString, InterfaceType, permitsInterfaceType literals)
-    "translate_global",   # C12: gen/GlobalSites.v (writers of process-global state, issue-list resets of the entry points)
-]
+# module -> the coq/gen files it writes (a failing translator only breaks the checks whose theorems depend on them)
+TRANSLATORS = {
+    "translate_math": ["MathTables.v"],                       # C01/C04: supportedMathMLElements
+    "translate_rules": ["RuleTable.v", "IssueSites.v"],       # C15
+    "translate_units": ["UnitTables.v", "PrefixTable.v"],     # C08
+    "translate_profile": ["AstTypes.v", "ProfileStrings.v"],  # C03/C17
+    "translate_iface": ["IfaceTable.v"],                      # C19: interfaceTypeToString, InterfaceType, permitsInterfaceType literals
+    "translate_global": ["GlobalSites.v"],                    # C12: writers of process-global state, issue-list resets of the entry points
+}
 
 
 def write_if_changed(path, text):
@@ -24,9 +24,17 @@ def write_if_changed(path, text):
 
 
 def run(repo, gendir):
+    """Runs every translator.  Returns {gen file: error text} for the translators that no longer understand the
+    source (their last good output is left in place so that the rest of the check can still run)."""
     here = os.path.dirname(os.path.abspath(__file__))
     if here not in sys.path:
         sys.path.insert(0, here)
     os.makedirs(gendir, exist_ok=True)
-    for name in TRANSLATORS:
-        importlib.import_module(name).run(repo, gendir)
+    failed = {}
+    for name, outputs in TRANSLATORS.items():
+        try:
+            importlib.import_module(name).run(repo, gendir)
+        except Exception as e:  # noqa: BLE001 - any failure of a translator is a broken obligation for its tables
+            for o in outputs:
+                failed[o] = "%s: %r" % (name, e)
+    return failed
